@@ -243,6 +243,43 @@ m("cu-absolute", "cache.units", B+"common/validator_pubkeys.go", "return &pc.idx
 m("pk-epoch", "pool.keys", "eth2/pool/attestations.go", "key := Assignment{Index: val, Epoch: att.Data.Target.Epoch}", "key := Assignment{Index: val, Epoch: att.Data.Source.Epoch}", "AttestationPool.AddAttestation")
 m("ar-wrapper", "assert.reach", B+"common/epochs_context.go", "XX", "XX", "XX")
 
+
+m("lo-drop-test", "lookup.ok", F+"proto/proto_array.go", "\tslot, ok := pr.blockSlots[root]\n\tif !ok {\n\t\treturn true, false\n\t}\n", "\tslot := pr.blockSlots[root]\n", "InSubtree:blockSlots[root]")
+m("lo-underscore", "lookup.ok", F+"proto/proto_array.go", "\tanchorIndex, ok := pr.indices[anchorRef]\n\tif !ok {\n\t\treturn NodeRef{}, UnknownAnchorErr", "\tanchorIndex, _ := pr.indices[anchorRef]\n\tif false {\n\t\treturn NodeRef{}, UnknownAnchorErr", "FindHead:indices[anchorRef]")
+m("lo-canon-plain", "lookup.ok", F+"proto/proto_array.go", "\t\t\ti, ok := pr.indices[ref]\n", "\t\t\ti, ok := pr.indices[ref], true\n", "CanonAtSlot:indices[ref]")
+
+
+m("fc-boundary", "fork.chain", B+"fork.go", "} else if epoch < d.Spec.DENEB_FORK_EPOCH {", "} else if epoch <= d.Spec.DENEB_FORK_EPOCH {", "ForkDigest[<DENEB]")
+m("fc-boundary-first", "fork.chain", B+"common/spec.go", "if epoch < spec.ALTAIR_FORK_EPOCH {", "if epoch <= spec.ALTAIR_FORK_EPOCH {", "ForkVersion[<ALTAIR]")
+
+
+m("lh-foreign-idx", "lock.held", B+"common/validator_pubkeys.go", "pc.parent.ValidatorIndex(pubkey)", "pc.parent.unsafeValidatorIndex(pubkey)", "=>other.unsafeValidatorIndex")
+m("lh-foreign-pub", "lock.held", B+"common/validator_pubkeys.go", "return pc.parent.Pubkey(index)", "return pc.parent.unsafePubkey(index)", "=>other.unsafePubkey")
+m("ug-and", "update.guard", F+"proto/proto_array.go", "if justifiedEpoch != pr.justifiedEpoch || finalizedEpoch != pr.finalizedEpoch {", "if justifiedEpoch != pr.justifiedEpoch && finalizedEpoch != pr.finalizedEpoch {", "ApplyScoreChanges@refresh")
+m("ro-contribs", "rotate.order", "eth2/pool/sync_committees.go", "\t\tsp.nextContribs = sp.currentContribs\n\t\tsp.currentContribs = sp.prevContribs\n", "\t\tsp.currentContribs = sp.prevContribs\n\t\tsp.nextContribs = sp.currentContribs\n", "SyncCommitteePool.Reset@rotation")
+m("ro-epochs", "rotate.order", B+"common/epochs_context.go", "\tepc.PreviousEpoch = epc.CurrentEpoch\n\tepc.CurrentEpoch = epc.NextEpoch\n", "\tepc.CurrentEpoch = epc.NextEpoch\n\tepc.PreviousEpoch = epc.CurrentEpoch\n", "EpochsContext.RotateEpochs@rotation")
+m("cmp-near-vote", "cmp.spec", F+"proto/votestore.go", "if targetEpoch > vote.NextTargetEpoch ||", "if targetEpoch > vote.CurrentTargetEpoch ||", "ProtoVoteStore.ProcessAttestation[")
+m("cmp-near-prune", "cmp.spec", "eth2/pool/attestations.go", "\tfor k := range ap.aggPerValidator {\n\t\tif k.Epoch < min {", "\tfor k := range ap.aggPerValidator {\n\t\tif k.Epoch < epoch {", "AttestationPool.Prune[")
+m("cmp-near-viable", "cmp.spec", F+"proto/proto_array.go", "(node.JustifiedEpoch == pr.justifiedEpoch || pr.justifiedEpoch == common.GENESIS_EPOCH)", "(node.JustifiedEpoch == pr.justifiedEpoch || pr.finalizedEpoch == common.GENESIS_EPOCH)", "isNodeViableForHead[")
+m("cmp-near-rotate", "cmp.spec", B+"common/epochs_context.go", "if epc.CurrentEpoch.Epoch%epc.Spec.EPOCHS_PER_SYNC_COMMITTEE_PERIOD == 0 {", "if (epc.CurrentEpoch.Epoch+1)%epc.Spec.EPOCHS_PER_SYNC_COMMITTEE_PERIOD == 0 {", "RotateEpochs[")
+m("cmp-near-exit", "cmp.spec", B+"deneb/voluntary_exit.go", "if scheduledExitEpoch != common.FAR_FUTURE_EPOCH {", "if scheduledExitEpoch <= currentEpoch {", "deneb.ValidateVoluntaryExit[")
+m("cmp-near-genesis", "cmp.spec", B+"phase0/genesis.go", "if vEff == spec.MAX_EFFECTIVE_BALANCE {", "if balance == spec.MAX_EFFECTIVE_BALANCE {", "GenesisFromEth1[")
+
+
+m("mu-dup-leaf", "merkle.unrolled", B+"common/logs_bloom.go", "d := hFn(bottom[6], bottom[7])", "d := hFn(bottom[6], bottom[6])", "LogsBloom.HashTreeRoot")
+m("mu-order", "merkle.unrolled", B+"common/logs_bloom.go", "return hFn(hFn(a, b), hFn(c, d))", "return hFn(hFn(a, c), hFn(b, d))", "LogsBloom.HashTreeRoot")
+m("mu-sig-pad", "merkle.unrolled", B+"common/bls.go", "return hFn(hFn(a, b), hFn(c, tree.Root{}))", "return hFn(hFn(a, b), c)", "BLSSignature.HashTreeRoot")
+m("mu-pub-span", "merkle.unrolled", B+"common/bls.go", "copy(b[:], p[32:48])", "copy(b[:], p[32:40])", "BLSPubkey.HashTreeRoot")
+m("gh-global", "global.hasher", B+"common/transition.go", "func ProcessSlot(", "var slotHashFn = tree.GetHashFn()\n\nfunc ProcessSlot(", "var slotHashFn")
+m("mp-blockhash", "merge.predicate", B+"bellatrix/transition.go", "return block.Body.ExecutionPayload.HashTreeRoot(spec, tree.GetHashFn()) != empty, nil", "return block.Body.ExecutionPayload.BlockHash != (common.Root{}) || 0*len(empty) != 0, nil", "bellatrix.IsTransitionBlock")
+m("dp-sig-error", "deposit.pop", B+"phase0/deposit.go", "\t\tsig, err := dep.Data.Signature.Signature()\n\t\tif err != nil {\n\t\t\t// deposit is skipped, still valid block.\n\t\t\treturn nil", "\t\tsig, err := dep.Data.Signature.Signature()\n\t\tif err != nil {\n\t\t\t// deposit is skipped, still valid block.\n\t\t\treturn err", "ProcessDeposit.signature-decode")
+m("dp-verify-error", "deposit.pop", B+"phase0/deposit.go", "\t\t\t// and the chain continues.\n\t\t\treturn nil", "\t\t\t// and the chain continues.\n\t\t\treturn errors.New(\"invalid deposit signature\")", "ProcessDeposit.pop-verify")
+m("si-size2", "shuffle.identity", S, "\tif rounds == 0 {\n\t\treturn input\n\t}", "\tif rounds == 0 || listSize <= 2 {\n\t\treturn input\n\t}", "innerPermuteIndex.early-return")
+m("si-conj", "shuffle.identity", S, "if len(input) <= 1 || rounds == 0 {", "if len(input) <= 1 && rounds == 0 {", "innerShuffleList.early-return")
+m("bs-minus-one", "bisect.step", F+"proto/proto_array.go", "\t\t\tmax.Slot = pivot.Slot\n", "\t\t\tmax.Slot = pivot.Slot - 1\n", "ClosestToSlot@bisect")
+m("pc-same-twin", "pair.cover", B+"phase0/attester_slashing.go", "if err := ValidateIndexedAttestation(spec, epc, state, sa2); err != nil {", "if err := ValidateIndexedAttestation(spec, epc, state, sa1); err != nil {", "ProcessAttesterSlashing:sa1/sa2")
+m("pc-gossip-twin", "pair.cover", "eth2/gossipval/attester_slashing.go", "phase0.ValidateIndexedAttestation(spec, epc, state, sa2)", "phase0.ValidateIndexedAttestation(spec, epc, state, sa1)", "ValidateAttesterSlashing:sa1/sa2")
+
 # lazy.init / lock.atomic positive cases are today's known findings (no mutant needed: they are violations on the tree)
 
 M = [x for x in M if not x["expect"].startswith("XX")]
